@@ -134,6 +134,7 @@ preflight_harness!(c03_o1_preflight_euclidean_d2, c03_o1_preflight_euclidean_d2_
 preflight_harness!(c03_o1_preflight_cosine_d1, c03_o1_preflight_cosine_d1__witness, 1, DistanceMetric::Cosine);
 preflight_harness!(c03_o1_preflight_cosine_d2, c03_o1_preflight_cosine_d2__witness, 2, DistanceMetric::Cosine);
 preflight_harness!(c03_o1_preflight_inner_product_d2, c03_o1_preflight_inner_product_d2__witness, 2, DistanceMetric::InnerProduct);
+preflight_harness!(c03_o1_preflight_inner_product_d1, c03_o1_preflight_inner_product_d1__witness, 1, DistanceMetric::InnerProduct);
 preflight_harness!(c03_o1_preflight_euclidean_d4, c03_o1_preflight_euclidean_d4__witness, 4, DistanceMetric::Euclidean);
 preflight_harness!(c03_o1_preflight_cosine_d3, c03_o1_preflight_cosine_d3__witness, 3, DistanceMetric::Cosine);
 
